@@ -458,7 +458,27 @@ def warm_build(spec, **build_kw):
     """
     warm = spec.get("warm")
     if not warm:
-        return build(spec, **build_kw)
+        h = build(spec, **build_kw)
+        h.sim_extra, h.t0 = {}, 0
+        return h
+    if warm.get("mode") == "nolog":
+        # a freshly built, never simulated model whose first run does not initialize the logs (they are empty anyway)
+        h = build(spec, **build_kw)
+        h.sim_extra, h.t0 = {"initialize_state_info": True, "initialize_log_info": False}, 0
+        return h
+    if warm.get("mode") in ("carry", "append"):
+        # the model itself has been simulated before and that run was cut short by max_time (resources held,
+        # components placed); the observed run then uses one of the two unequal initialize-flag combinations:
+        #   carry : initialize_state_info=False, initialize_log_info=True  (state carried over, logs and time restart)
+        #   append: initialize_state_info=True,  initialize_log_info=False (state reset, logs and time continue)
+        # A caller that ignores h.sim_extra simply re-runs with the default flags.
+        h = build(spec, **build_kw)
+        simulate(h.project, dict(spec.get("opts", default_opts()), max_time=2 * int(warm.get("k", 1)) - 1))
+        if warm["mode"] == "carry":
+            h.sim_extra, h.t0 = {"initialize_state_info": False, "initialize_log_info": True}, 0
+        else:
+            h.sim_extra, h.t0 = {"initialize_state_info": True, "initialize_log_info": False}, int(h.project.time)
+        return h
     ps = perturb(spec, int(warm.get("k", 1)))
     h0 = build(ps, **build_kw)
     simulate(h0.project, dict(ps.get("opts", default_opts()), max_time=12))
@@ -469,8 +489,10 @@ def warm_build(spec, **build_kw):
         p.workflow = h1.project.workflow
         p.organization = h1.project.organization
         h1.project = p
+        h1.sim_extra, h1.t0 = {}, 0
         return h1
     morph(h0, spec)
+    h0.sim_extra, h0.t0 = {}, 0
     return h0
 
 
